@@ -80,6 +80,12 @@ def template(draw, names, path=False, allow_cont=True, maxn=4):
             out.append(["esc", draw(st.sampled_from(["$", " ", ":"]))])
         elif allow_cont:
             out.append(["cont", draw(st.integers(0, 4))])
+            started = any(q[0] in ("var", "esc") or (q[0] == "lit" and bytes.fromhex(q[1]).strip(b" ")) for q in out[:-1])
+            # (only once the value has begun: before its first character llbuild's lexer treats the
+            # continuation and the tab as white space between tokens, where Ninja rejects most tabs anyway)
+            if not path and started and draw(st.integers(0, 3)) == 0:
+                # a continuation swallows the BLANKS that follow it, nothing else: a tab stays
+                out.append(["lit", b"\t".hex()])
         if not path and draw(st.integers(0, 2)) == 0:
             out.append(["lit", b" ".hex()])
     if path:
@@ -398,7 +404,10 @@ def reference(f, scope, out, info):
             for safe_name, safe in (("ll", LL_SAFE), ("nj", NJ_SAFE)):
                 rec["command_" + safe_name] = expand("command", safe, True)
             for prm in ("description", "depfile", "rspfile", "rspfile_content", "pool", "generator", "restat", "deps"):
-                rec[prm] = expand(prm, LL_SAFE, False)
+                # Ninja (Edge::GetBinding) shell-quotes $in / $out in every binding it expands; only the depfile
+                # and the rspfile NAME are read unescaped (observed with ninja 1.11: `ninja -n` prints the quoted
+                # description, `-d keeprsp` keeps a response file with quoted content)
+                rec[prm] = expand(prm, LL_SAFE, prm not in ("depfile", "rspfile"))
             if any(any(c not in LL_SAFE for c in p) for p in ins + outs):
                 info["quoted_path"] = True
             out.append(rec)
